@@ -327,6 +327,21 @@ def fromEdges (N : Nat) (edges : List (Nat × Nat)) : Option Adj :=
     some fun a b => edges.any fun e => (e.1 == a && e.2 == b) || (e.2 == a && e.1 == b)
   else none
 
+/-- `Network.Configuration(degree)` / `Network.BarabasiAlbert_igraph` after igraph has produced a
+(multi)graph with edge list `es`: `graph.simplify()` (drops self-loops, collapses multiple links)
+followed by `np.array(graph.get_adjacency(type=2).data)` -/
+def simplified (es : List (Nat × Nat)) : Adj := fun a b =>
+  a != b && es.any fun e => (e.1 == a && e.2 == b) || (e.2 == a && e.1 == b)
+
+/-- is there a pair of listed cross links the `while True` of `_randomlyRewireCrossLinks` accepts?
+(`false` = the kernel would draw forever: the call is outside "defined") -/
+def crossAdmissible (C : Adj) (links : List (Nat × Nat)) : Bool :=
+  links.any fun ab => links.any fun ce => !(C ab.1 ce.2 || C ce.1 ab.2)
+
+/-- is there a pair of rows of `edges` the `if` of `_randomly_rewire_geomodel` accepts? -/
+def geoAdmissible (c : GeoCfg) (A : Adj) (edges : List (Nat × Nat)) : Bool :=
+  edges.any fun st => edges.any fun kl => geoAcceptM c A st.1 st.2 kl.1 kl.2
+
 /-- `set_random_links_by_distance`: `A = (p >= 0.5 * (P + P.T))`, `fill_diagonal(A, 0)`;
 generic in the number type (`ge`, `half`, `add` are float64 operations in the code). -/
 def distKernelG {α : Type} (ge : α → α → Bool) (half : α → α) (add : α → α → α)
